@@ -121,6 +121,7 @@ def eval (ρ : Env) : Expr → Option CVal
     | _ => none
   | .cref e => eval ρ e
   | .vref e => eval ρ e
+  | .present _ c => eval ρ c
 def evalList (ρ : Env) : List Expr → Option (List CVal)
   | [] => some []
   | e :: es =>
@@ -143,6 +144,7 @@ def EnvOk (ρ : Env) : Expr → Prop
   | .lower e => EnvOk ρ e
   | .cref e => EnvOk ρ e
   | .vref e => EnvOk ρ e
+  | .present _ c => EnvOk ρ c
   | _ => True
 def EnvOkList (ρ : Env) : List Expr → Prop
   | [] => True
